@@ -245,7 +245,30 @@ theorem szM_sound : ∀ (m : Member) (env : Env) (v : Val) (b : Bytes) (e' : Env
     | tuple _ => simp [encMember] at h
     | none => simp [encMember] at h
   | .ifs _ _, env, v, b, e', hw, hs, h => by simp [szM, supported] at hs
-  | .optional _, env, v, b, e', hw, hs, h => by simp [szM, supported] at hs
+  | .optional ms, env, v, b, e', hw, hs, h => by
+    simp only [wfM] at hw
+    simp only [szM, supported] at hs
+    simp only [szM]
+    cases v with
+    | none =>
+      simp only [encMember, Option.some.injEq, Prod.mk.injEq] at h
+      rw [← h.1]; simp [szEval]
+    | tuple vs =>
+      simp only [encMember] at h
+      cases hm : encMembers ms env vs with
+      | none => simp [hm] at h
+      | some p =>
+        obtain ⟨b', e2⟩ := p
+        cases b' with
+        | nil => simp [hm] at h
+        | cons x b' =>
+          simp only [hm, Option.some.injEq, Prod.mk.injEq] at h
+          rw [← h.1]
+          simp only [szEval]
+          exact szMs_sound ms env vs (x :: b') e2 hw hs hm
+    | nat _ => simp [encMember] at h
+    | bytes _ => simp [encMember] at h
+    | list _ => simp [encMember] at h
 theorem szMs_sound : ∀ (ms : Members) (env : Env) (vs : List Val) (b : Bytes) (e' : Env), wfMs ms = true → supportedS (szMs ms) = true →
     encMembers ms env vs = some (b, e') → szSum (szMs ms) vs = some b.length
   | .nil, env, vs, b, e', _, _, h => by
